@@ -179,6 +179,7 @@ func main() {
 	var wg sync.WaitGroup
 	var mu sync.Mutex
 	var failures []string
+	crashed := map[string]string{}
 	for _, j := range jobs {
 		wg.Add(1)
 		sem <- struct{}{}
@@ -210,7 +211,13 @@ func main() {
 			}
 			if err != nil {
 				mu.Lock()
-				failures = append(failures, fmt.Sprintf("%s shard %d: %v\n%s", j.part.Name, j.shard, err, tail(string(outb), 3000)))
+				if excerpt, ok := libraryCrash(string(outb)); ok && j.part.Bin == "seq" && ctx.Err() == nil {
+					// the process died from a panic / fatal error raised in the library itself (a goroutine it started, or
+					// the runtime on its behalf): the call under test never returned, which no statement allows
+					crashed[j.out] = fmt.Sprintf("%s shard %d (%s %s): %v\n%s", j.part.Name, j.shard, j.part.Bin, strings.Join(args, " "), err, excerpt)
+				} else {
+					failures = append(failures, fmt.Sprintf("%s shard %d: %v\n%s", j.part.Name, j.shard, err, tail(string(outb), 3000)))
+				}
 				mu.Unlock()
 			}
 		}(j)
@@ -228,6 +235,15 @@ func main() {
 	partSamples := map[string]int{}
 	var capped []string
 	for _, j := range jobs {
+		if ex, ok := crashed[j.out]; ok {
+			sig := id + "|library-crashed-the-process|" + j.part.Name
+			tot.ViolCount[sig]++
+			rb, _ := json.Marshal(map[string]string{"kind": "crash", "rerun": ex})
+			tot.ViolEx[sig] = append(tot.ViolEx[sig], Example{Detail: ex, Replay: rb})
+			tot.Exhaustive = false
+			capped = append(capped, fmt.Sprintf("%s/%d: shard ended by a crash inside the library", j.part.Name, j.shard))
+			continue
+		}
 		b, err := os.ReadFile(j.out)
 		if err != nil {
 			os.RemoveAll(scratch)
@@ -392,6 +408,44 @@ func main() {
 	if newViol > 0 {
 		os.Exit(1)
 	}
+}
+
+// libraryCrash tells whether a process output ends in a Go panic / fatal error whose first frame outside the runtime
+// and the standard library belongs to the library under test (not to the harness), and returns the crash text.
+func libraryCrash(out string) (string, bool) {
+	i := strings.Index(out, "\npanic: ")
+	if k := strings.Index(out, "fatal error: "); k >= 0 && (i < 0 || k < i) {
+		i = k
+	}
+	if i < 0 {
+		if !strings.HasPrefix(out, "panic: ") {
+			return "", false
+		}
+		i = 0
+	}
+	crash := out[i:]
+	g := strings.Index(crash, "[running]:")
+	if g < 0 {
+		return "", false
+	}
+	lines := strings.Split(crash[g:], "\n")[1:]
+	for _, l := range lines {
+		if l == "" {
+			break // end of the crashing goroutine's stack
+		}
+		if strings.HasPrefix(l, "\t") || strings.HasPrefix(l, "panic(") || strings.HasPrefix(l, "created by ") {
+			continue
+		}
+		// the first frame that belongs to the harness or to the library decides (runtime, standard library and
+		// third-party frames above it are skipped: whoever called them is responsible)
+		if strings.HasPrefix(l, "main.") || strings.HasPrefix(l, "verif") {
+			return "", false
+		}
+		if strings.HasPrefix(l, "github.com/ddddddO/gtree.") || strings.HasPrefix(l, "github.com/ddddddO/gtree/markdown.") {
+			return tail(crash, 3000), true
+		}
+	}
+	return "", false
 }
 
 func sanitize(s string) string {
